@@ -228,7 +228,16 @@ def run_impl(case, deep=None):
     e = policy.Enforcer(conf, use_conf=False, **kw)
     for name, types in case.get('registered', {}).items():
         e.register_default(policy.RuleDefault(name, '!', scope_types=types or None))
-    e.set_rules(policy.Rules.from_dict(case['rules'], e.default_rule), use_conf=False)
+    carrier = case.get('carrier', 'rules_same')
+    if carrier == 'dict':
+        e.set_rules({k: _parser.parse_rule(v) for k, v in case['rules'].items()}, use_conf=False)
+    elif carrier == 'rules_other':
+        # a Rules object that carries a DIFFERENT default rule than the enforcer is configured with
+        e.set_rules(policy.Rules.from_dict(case['rules'], case.get('carrier_default', 'zz_other')), use_conf=False)
+    elif carrier == 'rules_none':
+        e.set_rules(policy.Rules.from_dict(case['rules']), use_conf=False)
+    else:
+        e.set_rules(policy.Rules.from_dict(case['rules'], e.default_rule), use_conf=False)
     if case['rule'][0] == 'name':
         rule = case['rule'][1]
     else:
